@@ -27,6 +27,8 @@ pub enum TOp {
   U64,
   /// alloc_aligned_bytes::<u64>(n), keep
   AB(u32),
+  /// alloc::<u128>() (alignment 16: twice the alignment of a free-list node), keep
+  T16,
   /// alloc_bytes_owned(n): handle embeds a clone of the arena
   BO(u32),
   /// release the most recent allocation of this thread
@@ -46,6 +48,7 @@ impl TOp {
       TOp::B(n) => format!("B{n}"),
       TOp::U64 => "U64".into(),
       TOp::AB(n) => format!("AB{n}"),
+      TOp::T16 => "T16".into(),
       TOp::BO(n) => format!("BO{n}"),
       TOp::DropOwn => "D".into(),
       TOp::DropPre(i) => format!("Dp{i}"),
@@ -839,6 +842,13 @@ fn run_thread(tid: usize, sh: &Shared, prog: &[TOp], mine: Option<Arena>) {
         }
         Err(_) => tr(tid, || "U64 failed".into()),
       },
+      TOp::T16 => match unsafe { a.alloc::<u128>() } {
+        Ok(mut b) => {
+          unsafe { b.detach() };
+          own.push(reg_alloc_req(tid, sh, meta_of(&b), "typed", 0xB8 + tid as u8, Some((0, 16, 16))));
+        }
+        Err(_) => tr(tid, || "T16 failed".into()),
+      },
       TOp::AB(n) => match a.alloc_aligned_bytes::<u64>(n) {
         Ok(mut b) => {
           unsafe { b.detach() };
@@ -956,8 +966,8 @@ thread_local! {
 
 pub fn run_one(h: &Harness, prefix: &[u8], o: &ExecOpts) -> ExecOut {
   let n = h.progs.len();
-  let cfg = Cfg { fl: h.fl, backend: Backend::Vec, unify: h.unify, reserved: 0, min_seg: h.min_seg, max_align: 8, cap: h.cap, magic: 0, file_offset: 0, retries: 5 };
-  let arena: Arena = Options::new().with_capacity(h.cap).with_unify(h.unify).with_freelist(h.fl.to()).with_minimum_segment_size(h.min_seg).alloc::<Arena>().expect("arena");
+  let cfg = Cfg { fl: h.fl, backend: Backend::Vec, unify: h.unify, reserved: 0, min_seg: h.min_seg, max_align: 16, cap: h.cap, magic: 0, file_offset: 0, retries: 5 };
+  let arena: Arena = Options::new().with_capacity(h.cap).with_unify(h.unify).with_freelist(h.fl.to()).with_minimum_segment_size(h.min_seg).with_maximum_alignment(16).alloc::<Arena>().expect("arena");
   let dof = cfg.data_offset();
   let base = arena.raw_mut_ptr();
   // ---- initial shape (no hook installed: not part of the schedule)
